@@ -20,21 +20,22 @@ def table(tag):
 p = os.path.join(VERIF, "DESIGN.md")
 s = open(p, encoding="utf-8").read()
 def keep_table(tag):
-    rows = ["| refactoring | what | alarms |", "|---|---|---|"]
+    rows = ["| refactoring | what | checks not silent after the fixes |", "|---|---|---|"]
     d = os.path.join(VERIF, "seeded_keep")
     for n in sorted(os.listdir(d)) if os.path.isdir(d) else []:
         if f"-{tag}" not in n:
             continue
         m = json.load(open(os.path.join(d, n, "meta.json")))
-        rows.append(f"| {n} | {m.get('what', '').replace('|', chr(92) + '|')} | {', '.join(m.get('alarms') or []) or 'none'} |")
+        und = m.get("undecided_in") or {}
+        rows.append(f"| {n} | {m.get('what', '').replace('|', chr(92) + '|')} | {('undecided (exit 2, recorded limitation): ' + ', '.join(sorted(und))) if und else 'none'} |")
     return "\n".join(rows)
 
 
-for tag in ("r3",):
+for tag in ("r3", "r4"):
     a, b = f"<!-- keep:{tag} -->", f"<!-- /keep:{tag} -->"
     if a in s and b in s:
         s = s[: s.index(a) + len(a)] + "\n" + keep_table(tag) + "\n" + s[s.index(b):]
-for tag in ("r1", "r2", "r3"):
+for tag in ("r1", "r2", "r3", "r4"):
     a, b = f"<!-- seeds:{tag} -->", f"<!-- /seeds:{tag} -->"
     if a in s and b in s:
         s = s[: s.index(a) + len(a)] + "\n" + table(tag) + "\n" + s[s.index(b):]
